@@ -1,3 +1,4 @@
 import PysamlModel.Props.PyTieCond
 #print axioms PyTie.condition_ok_refines_both
 #print axioms PyTie.condition_ok_refines_absent
+#print axioms PyTie.condition_ok_refines
